@@ -3,6 +3,7 @@ against the repository modules and returns a JSON-able output.  The same code
 runs inside a long session (hooks on) and alone in a fresh process
 (`python -m vt.c18_ops op.json`, no hooks), so outputs are comparable."""
 import contextlib
+import gzip
 import hashlib
 import io
 import json
@@ -23,6 +24,21 @@ def _name(tmp, text, suffix):
 def _write(path, text, enc='utf-8'):
     with io.open(path, 'w', encoding=enc, newline='') as f:
         f.write(text)
+    return path
+
+
+def _input(tmp, part):
+    """Write the input file of a reading operation and return its path.  With
+    part['gz'] the file is gzip-compressed and lives in the sub-directory
+    part['dir'] under the name part['name'] (so that two inputs can share a
+    base name)."""
+    if not part.get('gz'):
+        return _write(_name(tmp, part['text'], '.' + part['fmt']), part['text'])
+    d = os.path.join(tmp, part['dir'])
+    os.makedirs(d, exist_ok=True)
+    path = os.path.join(d, '%s.%s.gz' % (part['name'], part['fmt']))
+    with gzip.open(path, 'wb') as f:
+        f.write(part['text'].encode('utf-8'))
     return path
 
 
@@ -60,7 +76,7 @@ def execute(R, op, tmp, opened=None):
     declared = set()
     try:
         if k == 'read':
-            path = _write(_name(tmp, op['text'], '.' + op['fmt']), op['text'])
+            path = _input(tmp, op)
             declared.add(path)
             out = []
             with _captured():
@@ -71,8 +87,7 @@ def execute(R, op, tmp, opened=None):
         if k == 'read2':
             gens = []
             for part in (op['a'], op['b']):
-                path = _write(_name(tmp, part['text'], '.' + part['fmt']),
-                              part['text'])
+                path = _input(tmp, part)
                 declared.add(path)
                 gens.append(getattr(R.treeinput, part['fmt'])(
                     path, 'utf-8', **part['opts']))
@@ -87,6 +102,29 @@ def execute(R, op, tmp, opened=None):
                             except StopIteration:
                                 alive[i] = False
             return outs
+        if k == 'pipeline':
+            # read treebank a completely, optionally read treebank b while
+            # the trees of a are alive, then transform and write a
+            path = _input(tmp, op['a'])
+            declared.add(path)
+            s = io.StringIO()
+            with _captured():
+                bank = list(getattr(R.treeinput, op['a']['fmt'])(
+                    path, 'utf-8', **op['a']['opts']))
+                other = []
+                if op.get('b'):
+                    pb = _input(tmp, op['b'])
+                    declared.add(pb)
+                    other = list(getattr(R.treeinput, op['b']['fmt'])(
+                        pb, 'utf-8', **op['b']['opts']))
+                for t in bank:
+                    for name in op['names']:
+                        t = getattr(R.transform, name)(t)
+                    getattr(R.treeoutput, op['dfmt'])(t, s)
+                s.write('|other|')
+                for t in other:
+                    R.treeoutput.export(t, s)
+            return s.getvalue()
         if k == 'trans':
             rng = random.Random(op.get('shuffle', 0))
             live = model.build_live_tree(op['spec'], R.trees, rng)
